@@ -24,13 +24,14 @@ r1, r2, ro = rows('/verif/seeded/C*/meta.json'), rows('/verif/seeded/r2_*/meta.j
 r3 = rows('/verif/seeded/r3_*/meta.json')
 r4 = rows('/verif/seeded/r4_*/meta.json')
 r5 = rows('/verif/seeded/r5_*/meta.json')
+r6 = rows('/verif/seeded/r6_*/meta.json')
 readme = """# Seeded property-breaking changes
 
 Each directory holds one change to mariomulansky/PySpike: `patch.diff` (rebased on the /repo HEAD the checks were validated
 against; apply with `git -C /repo apply <file>`, undo with `git -C /repo checkout -- .`), `demo.py` (exits 0 on the clean tree,
 non-zero with the change, run as `PYTHONPATH=<tree> /venv/bin/python demo.py`), `notes.md` (the author's description) and
 `meta.json` (what it needs to manifest, what was run, which checks fired at the quick tier, seed 0).  All of them keep the
-repository's 49 baseline tests green.  `Cxx_k` = round 1, `r2_Cxx_k` = round 2, `r3_Axx_j` = round 3, `r4_Bxx_j` = round 4, `r5_Exx_j` = round 5 (all written by independent sub-agents that
+repository's 49 baseline tests green.  `Cxx_k` = round 1, `r2_Cxx_k` = round 2, `r3_Axx_j` = round 3, `r4_Bxx_j` = round 4, `r5_Exx_j` = round 5, `r6_Fxx_j` = round 6 (all written by independent sub-agents that
 were given only the text of one property and a scratch worktree - nothing from /verif), `own_*` = exact reverses of the
 repository repairs of DESIGN.md section 8 (written by the framework author).
 
@@ -67,6 +68,12 @@ repository repairs b41ad30 / 96fd8b7 make every function object a float array; t
 |---|---|---|---|
 """ % len(r5) + "\n".join(r5) + """
 
+## Round 6 (%d changes; each agent got the text of ONE property - C12, C15, C14, C09, C17, C06, the ones whose own check had missed something in an earlier round - plus the list of idea kinds already used, and was asked for places a test generator aimed at that property is least likely to drive)
+
+| change | what it is | property it breaks most directly (bold = that check fired) | other checks that fired |
+|---|---|---|---|
+""" % len(r6) + "\n".join(r6) + """
+
 ## Reverse-repair changes (%d)
 
 The two `.pyx`-only ones carry demos that execute the `.pyx` text through `/verif/vp/pyxemu.py` (no compiler exists here).
@@ -75,4 +82,4 @@ The two `.pyx`-only ones carry demos that execute the `.pyx` text through `/veri
 |---|---|---|---|
 """ % len(ro) + "\n".join(ro) + "\n"
 open('/verif/seeded/README.md', 'w').write(readme)
-print(len(r1), len(r2), len(r3), len(r4), len(r5), len(ro))
+print(len(r1), len(r2), len(r3), len(r4), len(r5), len(r6), len(ro))
